@@ -3,7 +3,7 @@ package rules
 func init() {
 	reg("C16", &PropSpec{
 		Rules:       []Rule{r("G1", RuleG1), r("G2", RuleG2), r("L1", RuleL1), r("D2", RuleD2), r("OP1", RuleOP1), r("RO1", RuleRO1), r("LK1", RuleLK1)},
-		Explanation: "A sufficient condition for race freedom of the collection types and independence of parses: every type carrying a mutex reads its guarded fields under R/W and writes them under W on every path, with membership test, order append and data store in one write section (G1); no package-level variable is written or mutated after initialisation, including sync.Map/Pool style containers (G2); the library starts no goroutine and uses no shared scheduler state, so all other state hangs off per-parse objects (D2 = G3); no callback run under a collection lock re-enters the same collection with an incompatible lock (L1). Not decided: equality of concurrent and solo results beyond what G2/D2 imply; the schema library's pooled buffers (trusted). No locking read of the same receiver precedes the write lock of the same method (check-then-act, G1). Serialisers (Marshal*/String and what they reach) store into nothing reachable from their receiver or parameters through an indirection (RO1).",
+		Explanation: "A sufficient condition for race freedom of the collection types and independence of parses: every type carrying a mutex reads its guarded fields under R/W and writes them under W on every path, with membership test, order append and data store in one write section (G1); no package-level variable is written or mutated after initialisation, including sync.Map/Pool style containers (G2); the library starts no goroutine and uses no shared scheduler state, so all other state hangs off per-parse objects (D2 = G3); no callback run under a collection lock re-enters the same collection with an incompatible lock (L1). Not decided: equality of concurrent and solo results beyond what G2/D2 imply; the schema library's pooled buffers (trusted). No locking read of the same receiver precedes the write lock of the same method (check-then-act, G1). Serialisers (Marshal*/String and what they reach) store into nothing reachable from their receiver or parameters through an indirection (RO1). A mutex taken without a deferred release is released on every way out (LK1).",
 		Trusted:     trustedCommon,
 	})
 }
